@@ -16,6 +16,14 @@ PROP = "coq/C14/Properties_C14.v"
 NB = 64     # metadynamics grid: one bin per hill as far as possible
 
 
+def run_twice(f, *a, **k):
+    """a walker that does not answer in time is a finding only if it happens again on the same case (the machine is shared)"""
+    try:
+        return f(*a, **k)
+    except W.WalkerTimeout:
+        return f(*a, **k)
+
+
 def close(a, b, exact):
     if exact:
         return a == b
@@ -28,8 +36,8 @@ def close(a, b, exact):
 
 def gen_abf(r, cid):
     n = r.choice([2, 2, 3, 3, 4])
-    nd = r.choice([1, 1, 2])
-    nbins = [r.randint(2, 4) for _ in range(nd)]
+    nd = r.choice([1, 1, 2, 2, 3])
+    nbins = [r.randint(2, 4 if nd < 3 else 3) for _ in range(nd)]
     F = r.choice([1, 2, 2, 3, 4])
     rounds = r.randint(1, 3)
     t_end = F * rounds + r.randint(0, F - 1)
@@ -247,7 +255,7 @@ def check_abf(run, exe, model, cases, scratch):
         run.sample({"kind": "abf", "n": c["n"], "nd": c["nd"], "nbins": c["nbins"], "freq": c["freq"],
                     "events": c["events"][:12], "more_events": max(0, len(c["events"]) - 12)}, cap=2)
         try:
-            out, stats = scen.run_abf(exe, c, scratch, timeout=10.0)
+            out, stats = run_twice(scen.run_abf, exe, c, scratch, timeout=10.0)
         except W.WalkerTimeout as e:
             ndead += 1
             run.violation("abf:exchange-deadlock", "the walkers did not complete the schedule (%s): a walker waits for an "
@@ -364,7 +372,7 @@ def gen_meta(r, cid):
             else:
                 do_step(w)
     return {"kind": "meta", "id": cid, "n": n, "nbins": NB, "hillfreq": hillfreq, "upfreq": upfreq,
-            "restartfreq": restartfreq, "lockstep": lock, "events": events}
+            "restartfreq": restartfreq, "lockstep": lock, "grids": r.random() < 0.7, "events": events}
 
 
 def meta_primitives(case):
@@ -487,34 +495,58 @@ def check_meta(run, exe, model, cases, scratch, fixflags="1 1"):
         run.dist("meta:lockstep" if c["lockstep"] else "meta:async")
         nrest = sum(1 for e in c["events"] if e[0] == "r")
         run.dist("meta:restarts" if nrest else "meta:no-restart")
+        run.dist("meta:useGrids-on" if c.get("grids", True) else "meta:useGrids-off")
         run.count(json.dumps([c["events"], c["restartfreq"], c["upfreq"], c["hillfreq"]]), True)
         run.sample({"kind": "meta", "n": n, "hillfreq": c["hillfreq"], "upfreq": c["upfreq"], "restartfreq": c["restartfreq"],
                     "lockstep": c["lockstep"], "events": c["events"][:14], "more_events": max(0, len(c["events"]) - 14)}, cap=4)
         try:
-            out = scen.run_meta(exe, c, scratch, timeout=25.0)
+            out = run_twice(scen.run_meta, exe, c, scratch, timeout=25.0)
         except W.WalkerTimeout as e:
             run.violation("meta:walker-died", "a walker stopped answering (%s)" % str(e)[:200], {"kind": "meta", "case": c})
             continue
-        # model: one trace per ordered pair (reader, peer)
-        traces = {}
-        qidx = {}
+        # model: the n-walker system of SharedModel.sys_step on the primitive events of the schedule
+        toks = []
+        qidx = {(rr, pp): {} for rr in range(n) for pp in range(n) if rr != pp}
+        nq = 0
+        for k, ev in enumerate(c["events"]):
+            for pr in prims[k]:
+                kind, w = pr[0], pr[1]
+                if kind == "dep":
+                    toks.append("d,%d,%d,%d" % (w, pr[2], pr[3]))
+                elif kind == "flush":
+                    toks.append("v,%d,100000" % w)
+                elif kind == "wstate":
+                    toks.append("w,%d,%d" % (w, pr[2]))
+                elif kind == "setup":
+                    toks.append("u,%d,%d,%d" % (w, pr[2], 1 if pr[3] else 0))
+                elif kind == "share":
+                    toks.append("s,%d" % w)
+                elif kind == "rrestart":
+                    toks.append("r,%d" % w)
+            toks.append("q,%d" % ev[1])
+            for pp in range(n):
+                if pp != ev[1]:
+                    qidx[(ev[1], pp)][k] = nq
+            nq += 1
+        rc, mout, err = V.run_lines(model, ["SYS %d %s" % (n, " ".join(toks))], timeout=600)
+        if rc != 0 or len(mout) != 1:
+            raise V.InfraError("C14 model driver failed: rc=%s %s" % (rc, err[-500:]))
+        segs = [x.strip() for x in mout[0].split(" | ")]
+        mres = {kk: [] for kk in qidx}
         for rr in range(n):
             for pp in range(n):
                 if rr != pp:
-                    traces[(rr, pp)] = []
-                    qidx[(rr, pp)] = {}
-        for k, ev in enumerate(c["events"]):
-            for (rr, pp), tk in traces.items():
-                tk += pair_tokens(prims[k], rr, pp)
-                if rr == ev[1]:
-                    qidx[(rr, pp)][k] = sum(1 for x in tk if x == "q")
-                    tk.append("q")
-        keys = sorted(traces)
-        rc, mout, err = V.run_lines(model, ["META %s %s" % (fixflags, " ".join(traces[kk])) for kk in keys], timeout=600)
-        if rc != 0 or len(mout) != len(keys):
-            raise V.InfraError("C14 model driver failed: rc=%s %s" % (rc, err[-500:]))
-        mres = {kk: parse_model_meta(o) for kk, o in zip(keys, mout)}
-        # record length of the hill records (all the same, or the case is skipped as ambiguous)
+                    mres[(rr, pp)] = [None] * len(segs)
+        for qi, seg in enumerate(segs):
+            for part in seg.split(" ; "):
+                t = part.split()
+                if len(t) < 3 or t[0] != "P":
+                    continue
+                pp = int(t[1])
+                parsed = parse_model_meta("M " + " ".join(t[2:]))[0]
+                for rr in range(n):
+                    if rr != pp and (rr, pp) in mres:
+                        mres[(rr, pp)][qi] = parsed      # filled for every reader; only the querying reader's entry is used
         lens = set(sn["reclen"] for (_, snap, _) in out for sn in snap.values() if sn.get("reclen"))
         if len(lens) > 1:
             run.dist("meta:records-of-different-length")
@@ -527,7 +559,7 @@ def check_meta(run, exe, model, cases, scratch, fixflags="1 1"):
                 break
             w, snap, d = out[k]
             if d["own"] is None:
-                run.violation("meta:no-state", "walker %d printed no state after event %d" % (w, k), {"kind": "meta", "case": c, "event": k})
+                run.violation("meta:no-state", "walker %d has no metadynamics bias after event %d %s (useGrids %s): %s" % (w, k, ev, "on" if c.get("grids", True) else "off", d["errtext"].strip()[:200]), {"kind": "meta", "case": c, "event": k})
                 break
             did_share = any(p[0] == "share" and p[1] == w for p in prims[k])
             # ---- own data untouched (oracle on the implementation alone)
@@ -544,7 +576,9 @@ def check_meta(run, exe, model, cases, scratch, fixflags="1 1"):
                     continue
                 mid = "w%d" % p
                 mir = d["mirrors"].get(mid)
-                mq = mres[(w, p)][qidx[(w, p)][k]] if qidx[(w, p)].get(k) is not None and qidx[(w, p)][k] < len(mres[(w, p)]) else {"bad": 1}
+                mq = mres[(w, p)][qidx[(w, p)][k]] if qidx[(w, p)].get(k) is not None and qidx[(w, p)][k] < len(mres[(w, p)]) else None
+                if mq is None:
+                    mq = {"bad": 1}
                 Dp = Dafter[k][p]
                 if mir is not None:
                     cont, okint = scen.content(mir, mir.get("grid"), NB)
@@ -638,6 +672,8 @@ def gen_view(r, cid, robust=False):
             events.append(["ph", k])
         elif x < 0.92 and split_case:
             events.append(["pb"])
+        elif x < 0.93 and pstarted:
+            events.append(["pt", r.choice([None, None, 0, 10, 40, 80, 200, 400, 700, 1500])])
         elif x < 0.94 and pstarted:
             events.append(["pr", r.random() < 0.5])
             events.append(["ps", plast])
@@ -652,7 +688,7 @@ def gen_view(r, cid, robust=False):
             else:
                 events.append(["pg", r.choice([None, None, 1, 2, 3, 4, 10, 20, 30])])
     c = {"kind": "view", "id": cid, "n": 2, "nbins": NB, "hillfreq": hillfreq, "upfreq": upfreq,
-         "restartfreq": restartfreq, "robust": robust, "events": events}
+         "restartfreq": restartfreq, "robust": robust, "grids": r.random() < 0.7, "events": events}
     if robust:
         c["late_register"] = r.random() < 0.7
         events.append(["pg", None])
@@ -669,11 +705,12 @@ def gen_view(r, cid, robust=False):
 def check_view(run, exe, model, cases, scratch, fixflags="1 1"):
     for c in cases:
         run.dist("view:robust" if c["robust"] else "view:prefix")
+        run.dist("view:useGrids-on" if c.get("grids", True) else "view:useGrids-off")
         run.count(json.dumps([c["events"], c["restartfreq"], c["upfreq"], c["hillfreq"]]), True)
         run.sample({"kind": "view", "hillfreq": c["hillfreq"], "upfreq": c["upfreq"], "restartfreq": c["restartfreq"],
                     "events": c["events"][:14], "more_events": max(0, len(c["events"]) - 14)}, cap=6)
         try:
-            out = scen.run_view(exe, c, scratch, timeout=25.0)
+            out = run_twice(scen.run_view, exe, c, scratch, timeout=25.0)
         except W.WalkerTimeout as e:
             run.violation("view:walker-died", "a walker stopped answering while reading a peer's partially written files (%s)" % str(e)[:200],
                           {"kind": "view", "case": c})
@@ -693,14 +730,17 @@ def check_view(run, exe, model, cases, scratch, fixflags="1 1"):
         shared_at = {}
         Dp_at = {}
         mid = False                # between the two halves of a state-file rewrite of P, as R sees it
-        inside = False             # R has exchanged in such a window: the known hole (C14_meta_prefix_exchange_inside_state_rewrite_refuted)
+        mid_step = 0
+        inside = False             # (kept for the report) R has exchanged in such a window
         inside_at = {}
         for k, rec in enumerate(out):
             ev = rec["ev"]
             who = "p" if ev[0] in ("ps", "pr") else "r" if ev[0] in ("rs", "rr") else None
             if ev[0] in ("ps", "pr", "ph", "pb") and mid:
-                toks.append("wb")
+                toks.append("wa,%d" % mid_step)
                 mid = False
+            if ev[0] == "pt":
+                toks.append("sv,%d" % (0 if rec["state_partial"] else 1))
             if ev[0] in ("ps", "rs"):
                 nt = (t[who] if t[who] is not None else 0) if first[who] else t[who] + 1
                 rel0 = first[who]
@@ -717,8 +757,9 @@ def check_view(run, exe, model, cases, scratch, fixflags="1 1"):
                         inside = True
                 if rfq[who] > 0 and (not rel0) and nt % rfq[who] == 0:
                     if who == "p" and len(ev) > 2 and ev[2] == "split":
-                        toks.append("wa,%d" % nt)
+                        toks.append("wb")
                         mid = True
+                        mid_step = nt
                     else:
                         toks.append("w,%d" % nt if who == "p" else "o")
             elif ev[0] == "pr":
@@ -777,14 +818,8 @@ def check_view(run, exe, model, cases, scratch, fixflags="1 1"):
             mir = d["mirrors"].get("w1")
             Dp = Dp_at[k]
             cont = None
-            # the known hole (exchange inside a peer's state-file rewrite) is recognised by the faithful model
-            # predicting exactly what the implementation holds; anything else in such a case is a new defect
-            mq0 = mres[qat[k]] if (mres is not None and qat.get(k) is not None and qat[k] < len(mres)) else None
             known_hole = False
-            if inside_at[k] and mir is not None and mq0 is not None and mq0.get("mirror") is not None:
-                c0, ok0 = scen.content(mir, mir.get("grid"), NB)
-                known_hole = ok0 and c0 == counts_of(mq0["mirror"]["cont"], NB)
-            if mir is None and shared_at.get(k) and rec.get("files_ok", True) and rec["p_state_step"] is not None and c["robust"]:
+            if mir is None and shared_at.get(k) and rec.get("files_ok", True) and rec.get("view_state_step") is not None and c["robust"]:
                 run.violation("view:peer-ignored", "after its exchange in event %d the reader has no mirror of its peer although the registry, the list file "
                               "and the state file are complete" % k, {"kind": "view", "case": c, "event": k})
                 break
@@ -801,10 +836,10 @@ def check_view(run, exe, model, cases, scratch, fixflags="1 1"):
                                   "the first %d bytes of the peer's hills file (records of %s bytes)" % (k, rec["ev"], show(cont), [b for (_, b) in Dp],
                                   rec["view_hills_bytes"], reclen), {"kind": "view", "case": c, "event": k})
                     break
-                if shared_at.get(k) and reclen and rec.get("files_ok", True) and rec["p_state_step"] is not None:
-                    S = rec["p_state_step"]
+                if shared_at.get(k) and reclen and rec.get("files_ok", True) and rec.get("view_state_step") is not None:
+                    S = rec["view_state_step"]
                     n_state = sum(1 for (it, _) in Dp if it <= S)
-                    n_file = 0 if rec.get("mid") else (rec["view_hills_bytes"] + 1) // reclen
+                    n_file = (rec["view_hills_bytes"] + 1) // reclen
                     if kpre < n_state + n_file:
                         run.violation("view:visible-hills-missing" + (":exchange-inside-state-rewrite" if known_hole else ""), "after its exchange in event %d the reader holds %d hills of its peer (bins %s) although the "
                                       "state file (step %d, %d hills) and %d complete records (%d bytes) were visible" %
@@ -827,7 +862,7 @@ def check_view(run, exe, model, cases, scratch, fixflags="1 1"):
                 irec = 0 if ipos <= 0 else (ipos + 1) // reclen if reclen and (ipos + 1) % reclen == 0 else -1
                 isum = {"sync": int(mir["in_sync"]), "S": int(mir["state_step"]), "pos": irec, "cont": show(cont)}
                 msum = {"sync": mm["sync"], "S": mm["S"], "pos": mm["pos"], "cont": show(counts_of(mm["cont"], NB))}
-                if isum != msum or (not mq["ok"] and not inside_at[k]):
+                if isum != msum or not mq["ok"]:
                     isum["pos_bytes"] = ipos
                     run.mismatch("view", {"case": c, "event": k, "bytes": rec["view_hills_bytes"]}, isum, dict(msum, trace_ok=mq["ok"]))
                     tie_ok = False
@@ -852,7 +887,7 @@ def check_czar(run, exe, model, cases, scratch):
         run.count(json.dumps([c["steps"], c["gather_at"], c["freq"]]), True)
         run.sample({"kind": "czar", "n": c["n"], "nbins": c["nbins"], "freq": c["freq"], "gather_at": c["gather_at"], "steps": c["steps"][:3]}, cap=7)
         try:
-            res, stats = scen.run_czar(exe, c, scratch, timeout=15.0)
+            res, stats = run_twice(scen.run_czar, exe, c, scratch, timeout=15.0)
         except W.WalkerTimeout as e:
             run.violation("czar:gather-deadlock", "the walkers did not complete the collective CZAR gather (%s)" % str(e)[:200], {"kind": "czar", "case": c})
             continue
@@ -880,6 +915,18 @@ def check_czar(run, exe, model, cases, scratch):
                 run.violation("czar:gather-not-the-sum", "after the gather at step %d replica 0 holds z counts %s, the walkers' z counts are %s (sum %s)"
                               % (t, g["gzcnt"], [d["zcnt"] for d in dumps], ecnt), {"kind": "czar", "case": c, "step": t})
                 break
+            # shared eABF end to end: the samples are binned on the extended coordinate, whose trajectory python does not
+            # know; but every walker's snapshot of the last exchange must be the sum of all walkers' local grids
+            # (each walker's own exchanged samples), and global = snapshot + what the walker collected since
+            lc = [sum(d["ocnt"][i] for d in dumps) for i in range(len(g["ocnt"]))]
+            ls = [sum(d["osum"][i] for d in dumps) for i in range(len(g["osum"]))]
+            badw = [w_ for w_, d in enumerate(dumps) if d["lcnt"] != lc or any(not close(a, b, False) for a, b in zip(d["lsum"], ls))
+                    or any(x < y for x, y in zip(d["cnt"], d["lcnt"]))]
+            if badw and c["freq"] < 100:
+                run.violation("czar:snapshot-not-the-sum-of-locals", "eABF walkers, gather at step %d: snapshot counts of walker %d are %s, the local counts of "
+                              "all walkers are %s (sum %s)" % (t, badw[0], dumps[badw[0]]["lcnt"], [d["ocnt"] for d in dumps], lc), {"kind": "czar", "case": c, "step": t})
+                break
+            run.dist("czar:z-gradient-nonzero" if any(x != 0.0 for d in dumps for x in d["zsum"]) else "czar:z-gradient-zero")
             tk = mo.split()
             mc = [int(x) for x in tk[1][4:].split(",")]
             ms = [float.fromhex(x) for x in tk[2][4:].split(",")]
@@ -906,7 +953,7 @@ def check_opes(run, exe, model, cases, scratch):
         run.count(json.dumps([c["steps"], c["pace"]]), True)
         run.sample({"kind": "opes", "n": c["n"], "pace": c["pace"], "steps": c["steps"][:3]}, cap=8)
         try:
-            res, stats = scen.run_opes(exe, c, scratch, timeout=15.0)
+            res, stats = run_twice(scen.run_opes, exe, c, scratch, timeout=15.0)
         except W.WalkerTimeout as e:
             run.violation("opes:gather-deadlock", "the walkers did not complete the schedule (%s)" % str(e)[:200], {"kind": "opes", "case": c})
             continue
@@ -930,6 +977,41 @@ def check_opes(run, exe, model, cases, scratch):
                 run.violation("opes:kernels-not-the-contributions", "at step %d the kernel centres are %s, the walkers were fed %s at the deposition steps (rank order)"
                               % (t, got, exp), {"kind": "opes", "case": c, "step": t})
                 break
+            # the normalisation: bit-identical on all walkers (sum of weights, of squared weights, neff, rct, zed, kernel norm, counter)
+            norm = [tuple(d.get(x) for x in ("sumw", "sumw2", "neff", "rct", "zed", "kdenorm", "counter")) for d in dumps]
+            if any(x != norm[0] for x in norm[1:]):
+                run.violation("opes:normalisation-differs", "at step %d the walkers hold different normalisations (sumw, sumw2, neff, rct, zed, kdenorm, counter): %s"
+                              % (t, norm), {"kind": "opes", "case": c, "step": t})
+                break
+            if t == 0:
+                base = dumps[0]
+                hrounds = []
+            if t > 0 and t % c["pace"] == 0:
+                nk = len(dumps[0]["kernels"])
+                hrounds.append([k[0] for k in dumps[0]["kernels"][nk - c["n"]:]])
+                # oracle on the implementation alone: the sum of weights is the initial value plus the weight of every
+                # kernel of every walker, each once (weights = kernel heights: fixedGaussianSigma, compression off)
+                sw = float.fromhex(base["sumw"])
+                for r_ in hrounds:
+                    acc = float.fromhex(r_[0])
+                    for h_ in r_[1:]:
+                        acc += float.fromhex(h_)
+                    sw += acc
+                if not close(sw, float.fromhex(dumps[0]["sumw"]), False):
+                    run.violation("opes:sum-of-weights-not-the-contributions", "at step %d the walkers' sum of weights is %r; the initial value plus the "
+                                  "weights of all kernels of all walkers is %r (rounds %s)" % (t, float.fromhex(dumps[0]["sumw"]), sw, hrounds),
+                                  {"kind": "opes", "case": c, "step": t})
+                    break
+                rc, mo2, err = V.run_lines(model, ["OPESSUM %s %s %d %s %s" % (base["sumw"], base["sumw2"], base["counter"], base["kbt"],
+                                                   ";".join(",".join(r_) for r_ in hrounds))], timeout=60)
+                if rc != 0 or len(mo2) != 1:
+                    raise V.InfraError("C14 model driver failed: rc=%s %s" % (rc, err[-500:]))
+                last = mo2[0].split()[1].split(";")[-1].split(",")
+                got_n = (dumps[0]["sumw"], dumps[0]["sumw2"], str(dumps[0]["counter"]), dumps[0]["neff"], dumps[0]["rct"])
+                okn = all((a == b) if i == 2 else close(float.fromhex(a), float.fromhex(b), False) for i, (a, b) in enumerate(zip(got_n, last)))
+                if not okn:
+                    run.mismatch("opes:sums", {"case": c, "step": t}, got_n, last)
+                    break
             rc, mout, err = V.run_lines(model, ["OPES %d %s" % (c["n"], ";".join(",".join(rd) for rd in rounds))], timeout=60)
             if rc != 0 or len(mout) != 1:
                 raise V.InfraError("C14 model driver failed: rc=%s %s" % (rc, err[-500:]))
@@ -937,6 +1019,51 @@ def check_opes(run, exe, model, cases, scratch):
             if any(ml != [V.hexf(float.fromhex(k[1])) for k in d["kernels"]] for ml, d in zip(mlists, dumps)) or len(mlists) != len(dumps):
                 run.mismatch("opes", {"case": c, "step": t}, [[k[1] for k in d["kernels"]] for d in dumps], mlists)
                 break
+
+
+# ==========================================================================================
+# the order of the two halves of write_state_to_replicas, as the operating system sees it
+# ==========================================================================================
+
+def check_rewrite_order(run, exe, scratch):
+    """The model (ev_ok proto) and the view-mode stream present a state-file rewrite as: hills file removed and
+    created again, THEN state file renamed into place.  Which order the code uses cannot be seen from the files
+    after the step; it is read off the system calls of a walker (strace)."""
+    import shutil as _sh
+    if not _sh.which("strace"):
+        run.dist("order:strace-not-available")
+        return
+    d = os.path.join(scratch, "order")
+    _sh.rmtree(d, ignore_errors=True)
+    os.makedirs(d)
+    case = {"nbins": NB, "hillfreq": 1, "upfreq": 1}
+    L = scen.meta_setup(case, "w0", os.path.join(d, "registry.txt"), "out0", 3)
+    for b in range(2, 9):
+        L += ["pos 1 0 0 %s" % float(b + 0.5).hex(), "step"]
+    L += ["postrun", "quit"]
+    open(os.path.join(d, "in.scn"), "w").write("\n".join(L) + "\n")
+    rc, o, e = V.sh(["strace", "-f", "-o", "trace.txt", "-e", "trace=rename,renameat,renameat2,unlink,unlinkat", exe, "in.scn"], cwd=d, timeout=120)
+    try:
+        lines = open(os.path.join(d, "trace.txt")).read().split("\n")
+    except OSError:
+        run.dist("order:strace-failed")
+        return
+    seq = []
+    for ln in lines:
+        if "unlink" in ln and ".hills" in ln and "= 0" in ln:
+            seq.append("B")
+        elif "rename" in ln and ".state.tmp" in ln and "w0.state" in ln and "= 0" in ln:
+            seq.append("A")
+    run.count("order:" + "".join(seq), True)
+    run.dist("order:checked")
+    run.sample({"kind": "order", "syscalls": "".join(seq), "meaning": "B = hills file unlinked, A = state file renamed into place"}, cap=9)
+    # setup_output: B A ; every write_state_to_replicas after that must be B A as well
+    pairs = ["".join(seq[i:i + 2]) for i in range(0, len(seq) - 1, 2)]
+    if len(seq) < 4 or len(seq) % 2 or any(p != "BA" for p in pairs):
+        run.violation("meta:state-rewrite-order", "a walker writing its state every 3 steps performed the removals of its hills file (B) and the "
+                      "renamings of its state file (A) in the order %s; the model, and a reader that exchanges in between, need B before A "
+                      "every time (C14_meta_prefix_old_order_refuted shows what is lost otherwise)" % "".join(seq),
+                      {"kind": "order", "scenario": L, "syscalls": seq})
 
 
 # ==========================================================================================
@@ -971,6 +1098,7 @@ def check(run):
     run.cov["rule"] = ("one case = one generated schedule (interleaving of walker steps, exchange points, restarts, visibility prefixes) run on "
                        "2-4 real walker processes and on the extracted model; distinct = distinct event list + frequencies")
     try:
+        check_rewrite_order(run, exe, scratch)
         run_cases(run, exe, model, load_corpus(), scratch)
         na, nm, nv, nr = (60, 45, 30, 12) if quick else (1500, 1200, 800, 300)
         cases = [gen_abf(r, "a%d" % i) for i in range(na)]
